@@ -14,7 +14,7 @@ import (
 
 func socketRun(c *Ctx) {
 	rng := c.Rng
-	n := 80
+	n := 150
 	if !c.Quick() {
 		n = 2000
 	}
@@ -79,10 +79,11 @@ func socketRun(c *Ctx) {
 		flush()
 		sync := SyncFrame(ph, false, 0xfff0)
 		st = append(st, SkStep{Kind: 'y', Data: sync.Wire()})
-		req := "sk " + SkStepsString(st)
-		res := SkPlay(st)
+		srvMode := i % 3 // 0 plain, 1 dawdling write callbacks, 2 dawdling read callbacks
+		req := []string{"sk ", "sk1 ", "sk2 "}[srvMode] + SkStepsString(st)
+		res := SkPlayMode(st, srvMode)
 		c.Eval(req, true)
-		c.Count(fmt.Sprintf("socket/mode%d", mode))
+		c.Count(fmt.Sprintf("socket/cut%d/server%d", mode, srvMode))
 		viol := func(sig, what, observed, required string) {
 			c.Violate(Violation{Signature: "C09/socket-" + sig, What: what, Input: req, Observed: Trunc(observed, 3000), Required: Trunc(required, 3000)})
 		}
